@@ -221,6 +221,16 @@ class WebSocketReader:
                     "Continuation frame for non started message",
                 )
 
+            # A new text/binary frame must not start while a fragmented
+            # message is still in progress (no extension defines interleaving).
+            # https://datatracker.ietf.org/doc/html/rfc6455#section-5.4
+            if opcode != OP_CODE_CONTINUATION and self._opcode != OP_CODE_NOT_SET:
+                raise WebSocketError(
+                    WSCloseCode.PROTOCOL_ERROR,
+                    "The opcode in non-fin frame is expected "
+                    f"to be zero, got {opcode!r}",
+                )
+
             # load text/binary
             if not fin:
                 # got partial frame payload
